@@ -523,7 +523,35 @@ impl Dec {
 fn mutate(rng: &mut Rng, valid: &[u8], other: &[u8]) -> (Vec<u8>, &'static str) {
     let mut b = valid.to_vec();
     let n = b.len().max(1);
-    match rng.below(13) {
+    match rng.below(14) {
+        13 => {
+            // a module / import path (u16 length + text) replaced by a path-like string at the edge of
+            // the path grammar: the reserved first components, stray delimiters, bad first characters
+            let mut sites: Vec<(usize, usize)> = vec![];
+            let mut i = 2;
+            while i + 3 <= b.len() {
+                if &b[i..i + 3] == b"lib" {
+                    let l = b[i - 2] as usize | ((b[i - 1] as usize) << 8);
+                    if (3..=60).contains(&l) && i + l <= b.len() && b[i..i + l].iter().all(|c| c.is_ascii_alphanumeric() || *c == b':' || *c == b'_') {
+                        sites.push((i, l));
+                    }
+                }
+                i += 1;
+            }
+            if !sites.is_empty() {
+                let (at, l) = *rng.pick(&sites);
+                let long = "a".repeat(256);
+                let special: [&str; 20] = ["#sys", "#exec", "#sys:", "#sys::", "#sys::a", "#exec::m", "#sysab", "#system", "#sys\u{20ac}", "#exe", "::", "a::", "::a", "a:::b", "A", "1a", "a::1", "_a", "#", &long];
+                let t = rng.pick(&special).as_bytes().to_vec();
+                let tail: Vec<u8> = b[at + l..].to_vec();
+                b.truncate(at - 2);
+                b.push((t.len() & 0xff) as u8);
+                b.push((t.len() >> 8) as u8);
+                b.extend(t);
+                b.extend(tail);
+            }
+            (b, "path-at-the-edge-of-the-grammar")
+        }
         12 => {
             // a text field (doc comment, name) given a large length and filled with bytes that are
             // not valid UTF-8: locate a run of printable text and rewrite the u16 length before it
